@@ -9,9 +9,10 @@ Correspondence: the real start-up code (src/entry_point/**) vs Rws.Config (Lean 
 Oracle on the implementation alone: the precedence rule written directly below (`expect`), over
 the DOCUMENTED spellings (table `SETTINGS`, typed from rws.command_line / rws.config.toml /
 rws.variables / CONFIGURE.md, not read from the source)."""
-import os, re, shutil, subprocess, tempfile, itertools
+import os, re, shutil, subprocess, sys, tempfile, itertools
 from concurrent.futures import ThreadPoolExecutor
 from vlib import common as C
+from vlib import gen_c12 as G
 
 DRIVERS = ['Config']   # model driver files this check runs: scopes translator failures to the tables they (and the proofs) import
 TRUSTED = ['Rust std: env::var/set_var/args, str::split_once/replace/trim, BufRead::lines, iN::from_str (modelled in Rws/Config.lean)',
@@ -42,6 +43,9 @@ LISTY = {'RWS_CONFIG_CORS_ALLOW_ORIGINS', 'RWS_CONFIG_CORS_ALLOW_METHODS', 'RWS_
 ARGV0 = [C.HARNESS_BIN, 'config']
 
 def b(x): return x.encode('utf-8') if isinstance(x, str) else x
+def short(x, n=600):
+    r = repr(x)
+    return r if len(r) <= n else r[:n // 2] + ' … ' + r[-n // 2:] + f' ({len(r)} characters)'
 
 # ------------------------------------------------------------------ protocol encoding
 def enc_env(env):
@@ -68,8 +72,17 @@ def run_start_case(case):
     env, file, cli = case
     d = tempfile.mkdtemp(prefix='c12-')
     try:
+        # G.Cli (a list) may carry the shape of the working directory: rws.config.toml as a symbolic link
+        # (`link`: target path relative to the working directory, or 'abs'), other files next to it (`decoys`)
+        link, decoys = getattr(cli, 'link', None), getattr(cli, 'decoys', {})
+        for name, content in decoys.items():
+            os.makedirs(os.path.dirname(os.path.join(d, name)), exist_ok=True)
+            with open(os.path.join(d, name), 'wb') as fh: fh.write(b(content))
         if file is not None:
-            with open(os.path.join(d, 'rws.config.toml'), 'wb') as fh: fh.write(b(file))
+            real = 'rws.config.toml' if not link else 'elsewhere/settings.toml' if link == 'abs' else link
+            os.makedirs(os.path.dirname(os.path.join(d, real)), exist_ok=True)
+            with open(os.path.join(d, real), 'wb') as fh: fh.write(b(file))
+            if link: os.symlink(os.path.join(d, real) if link == 'abs' else real, os.path.join(d, 'rws.config.toml'))
         e = {b(k): b(v) for k, v in env}
         try:
             p = subprocess.run([b(x) for x in ARGV0 + list(cli)], cwd=d, env=e, stdout=subprocess.PIPE,
@@ -202,7 +215,9 @@ def cli_arg(rng, var, val, form=None):
 
 # ------------------------------------------------------------------ the run
 def run(res, tier, seed):
-    rng = C.Rng(seed)
+    # C.Rng(seed) starts at seed * gamma and steps by gamma: the streams of seeds 1, 2, 3 … are ONE stream shifted by a draw,
+    # and the generators below fall into step after a few cases.  Forking hashes the state: the seeds become unrelated.
+    rng = C.Rng(seed).fork('C12')
     quick = tier == 'quick'
     # ======================================================= A. fresh-process cases (cfgstart)
     S = []      # (kind, (env, file, cli), assigns|None, judged)
@@ -221,7 +236,7 @@ def run(res, tier, seed):
         S.append(('spelling long', ([], None, ['--' + s[2] + '=' + v]), None, True))
         S.append(('spelling variable', ([(var, v)], None, []), None, True))
         hdr = f'[{s[3]}]\n' if s[3] else ''
-        for key in {s[4], s[4].replace('_', '-'), s[4].replace('-', '_')}:
+        for key in sorted({s[4], s[4].replace('_', '-'), s[4].replace('-', '_')}):      # sorted: set order depends on PYTHONHASHSEED
             for style in ('dq', 'bare') + (('arr',) if var in LISTY else ()):
                 q = render_value(rng, var, v, style)
                 S.append(('spelling toml ' + ('[cors] key' if s[3] else 'key'), ([], f'{hdr}{key} = {q}\n', []), [(var, v)], True))
@@ -265,10 +280,17 @@ def run(res, tier, seed):
     S.append(('x non-utf8 env', ([('RWS_CONFIG_IP', b'\xff\xfe'), ('RWS_CONFIG_PORT', b'80\xc3')], 'thread_count = 3\n', []), None, False))
     S.append(('x empty env value', ([('RWS_CONFIG_IP', ''), ('RWS_CONFIG_PORT', '')], None, []), None, False))
     S.append(('x tab and crlf', ([], 'port\t=\t1\r\nip = 2 \t# c\r\nthread_count=3\r', []), None, False))
+    # A6 classes added by the generator audit (vlib/gen_c12.py, audit/C12/AUDIT.md): own PRNG stream, so A1-A5 stay as they were
+    S += G.start_cases(sys.modules[__name__], C.Rng(seed).fork('C12 gen-start'), quick)
 
     start_lines = [line_start(*c[1]) for c in S]
+    import threading
+    box = {}
+    th = threading.Thread(target=lambda: box.__setitem__('m', C.run_model(start_lines)))     # the model answers while the processes run
+    th.start()
     impl_s = run_start([c[1] for c in S])
-    model_s = C.run_model(start_lines)
+    th.join()
+    model_s = box['m']
     C.compare(res, start_lines, impl_s, model_s, 'startup (fresh process)')
     for k, ((kind, case, assigns, judged), ln, a) in enumerate(zip(S, start_lines, impl_s)):
         res.count('start ' + re.sub(r' mask=\d', '', kind))
@@ -287,7 +309,7 @@ def run(res, tier, seed):
                     sig = f'spelling:{kind.split(" ", 1)[1]}:{var}' if kind.startswith('spelling') else f'precedence:{var}:{src}'
                     res.fail(sig, ln, a, model_s[k],
                              f'{kind}: {var} is {vals.get(var)!r}, the rule (cli > file > env > default) gives {want[var]!r}; '
-                             f'env={env} file={file!r} cli={cli}')
+                             f'env={short(env)} file={short(file)} cli={short(cli)}')
                     break
             else:
                 if getters != expect_getters(vals):
@@ -387,6 +409,8 @@ def run(res, tier, seed):
         n = str(rng.choice([1, -1]) * rng.below(1 << rng.range(1, 70)))
         var = rng.choice(['RWS_CONFIG_PORT', 'RWS_CONFIG_THREAD_COUNT', 'RWS_CONFIG_REQUEST_ALLOCATION_SIZE_IN_BYTES'])
         add('cfgget', [enc_env([(var, n)])], 'x get random')
+    # B5 classes added by the generator audit (vlib/gen_c12.py)
+    for op, fields, kind, payload in G.stage_cases(sys.modules[__name__], C.Rng(seed).fork('C12 gen-stage'), quick): add(op, fields, kind, payload)
 
     impl, model = C.run_both(lines)
     C.compare(res, lines, impl, model, 'config stages', nontrivial=lambda ln, a: not ln.endswith(' - -'))
@@ -420,7 +444,7 @@ def run(res, tier, seed):
                 v = last(val for var, val in order if var == s[0])
                 w = b(v) if v is not None else (b(envd[s[0]]) if s[0] in envd else None)
                 if vals[s[0]] != w:
-                    res.fail(f'toml:{s[0]}', ln, a, m, f'{s[0]} is {vals[s[0]]!r} after reading {text!r}, expected {w!r}'); break
+                    res.fail(f'toml:{s[0]}', ln, a, m, f'{s[0]} is {short(vals[s[0]])} after reading {short(text)}, expected {short(w)}'); break
 
     res.exhaustive = 'all 11 settings x all 8 subsets of {environment, config file, command line} with distinct values (88 fresh-process start-ups)'
     res.rule = ('fresh-process start-ups: the 88 exhaustive subset cases, every documented spelling of every setting alone, %d sampled '
@@ -428,7 +452,12 @@ def run(res, tier, seed):
                 'in-process stage runs: set_default_values over random environments, _parse over random argument lists with near-miss '
                 'spellings, read_config_file over rendered files (comments, blank lines, quotes, arrays, key order, spaces, CRLF) and a '
                 'mutated/odd stream (tabs, Unicode white space, #, =, quotes in values, NUL, nested tables), typed getters over numeric '
-                'edge cases; a case is non-trivial unless both its environment and its input are empty' % n_combo)
+                'edge cases; a case is non-trivial unless both its environment and its input are empty; '
+                'generator audit (vlib/gen_c12.py): every other setting saturated from all sources, all settings from one / two / three '
+                'sources, the documented default or the empty text written by the higher source, special / punctuation / multi-byte / long '
+                'values through every source, near-miss variable names, flags and keys, both flag forms together, long command lines, files '
+                'with unrelated keys and tables around [cors], blanks inside the table brackets, triple quotes, mixed quotes, a line end per '
+                'line, settings behind 4 KiB - 1 MiB of comments, rws.config.toml as a symbolic link, similarly named files' % n_combo)
     res.sample({'op': start_lines[5][:160], 'case': repr(S[5][1])[:200], 'implementation': impl_s[5][:120] + '…', 'model': model_s[5][:120] + '…'})
     k = next(i for i, mm in enumerate(meta) if mm[0] == 'file')
     res.sample({'op': lines[k][:120] + '…', 'file': meta[k][1][2][:300], 'implementation': impl[k][:200] + '…'})
